@@ -900,6 +900,20 @@ func (wd *World) njStep(u string) (string, error) {
 		}
 		_, err := wd.do("POST", fmt.Sprintf("%skey/%d%s", base, id, q), []byte(body), fmt.Sprintf("POST nj/key/%d%s %s%s", id, q, body, at))
 		return "nj update", err
+	case x < 88:
+		// versioned metadata documents: validation schema (permissive for everything this workload writes) and the two
+		// client schemas; the open master head serves them from memory, every other version from the store
+		typ := []string{"json_schema", "schema", "schema_batch"}[wd.R.Intn(3)]
+		if wd.R.Intn(4) == 0 {
+			_, err := wd.do("DELETE", base+typ, nil, "DELETE nj/"+typ+at)
+			return "nj schema delete", err
+		}
+		body := fmt.Sprintf(`{"version": %d, "fields": ["bodyid", "f%d"]}`, wd.R.Intn(1000), wd.R.Intn(9))
+		if typ == "json_schema" {
+			body = fmt.Sprintf(`{"type": "object", "title": "s%d", "properties": {"bodyid": {"type": "integer"}, "n": {"type": "integer"}}}`, wd.R.Intn(1000))
+		}
+		_, err := wd.do("POST", base+typ, []byte(body), fmt.Sprintf("POST nj/%s %s%s", typ, body, at))
+		return "nj schema post", err
 	default:
 		id := ids[wd.R.Intn(len(ids))]
 		r, err := wd.do("DELETE", fmt.Sprintf("%skey/%d?u=user1", base, id), nil, fmt.Sprintf("DELETE nj/key/%d%s", id, at))
